@@ -455,8 +455,21 @@ def run(chk, prog):
                 return 'in:' + (fs[0].split('::')[-1] if fs else 'set')
             if desc[0] == 'call' and desc[1] == 'validator::is_builtin_function':
                 return 'in:builtin'
+            # a hand-written search: a test on the element of a loop over one of the context's name sets
+            if desc[0] == 'call' and desc[1].rsplit('::', 1)[-1] in ('ends_with', 'starts_with', 'eq', 'ne') \
+                    and any(a.endswith('::next') for a in desc[2] if a.startswith('via:')):
+                fs = sorted(a for a in desc[2] if a.startswith('field:ValidationContext::'))
+                if fs:
+                    return 'in:' + fs[0].split('::')[-1] + '~element'
             return None
-        gf = GuardFlow(prog, f, atom_of, tracer=tr)
+
+        def kills_elem(fn_, bb_, x_):
+            # each iteration looks at another element: the outcome of the element test is not stable across next()
+            if x_.get('k') == 'call' and callee_short(x_).rsplit('::', 1)[-1] == 'next':
+                return [a for a in ('in:valid_targets~element', 'in:flow_names~element', 'in:function_names~element',
+                                    'in:external_functions~element')]
+            return None
+        gf = GuardFlow(prog, f, atom_of, tracer=tr, kills=kills_elem)
         gf.run()
         g = cfg(f)
         # which returns are Ok?  find blocks assigning _0 = Ok / Err
